@@ -17,6 +17,17 @@ pub struct Rng(pub u64);
 
 impl Rng {
     pub fn new(seed: u64) -> Self {
+        // NOTE the state advances by the same constant the seed is multiplied with: without the mixing term the stream of
+        // seed s + 1 is the stream of seed s shifted by one draw, and generators re-synchronise after a few cases (seeds 1, 2,
+        // 3 gave almost the same case sets). The mixing term is 0 for seed 1, whose stream is unchanged.
+        let mut z = seed.wrapping_sub(1);
+        z = (z ^ (z >> 30)).wrapping_mul(0xBF58_476D_1CE4_E5B9);
+        z = (z ^ (z >> 27)).wrapping_mul(0x94D0_49BB_1331_11EB);
+        z ^= z >> 31;
+        Rng(seed.wrapping_mul(0x9E37_79B9_7F4A_7C15).wrapping_add(0x1234_5678_9ABC_DEF1) ^ z)
+    }
+    /// stream for a seed that was itself drawn from another stream (stored inside cases: keeps recorded cases stable)
+    pub fn derived(seed: u64) -> Self {
         Rng(seed.wrapping_mul(0x9E37_79B9_7F4A_7C15).wrapping_add(0x1234_5678_9ABC_DEF1))
     }
     pub fn next(&mut self) -> u64 {
